@@ -13,9 +13,20 @@ values only through "strictly above the threshold"), rotating with the case inde
   * values of the above pixels: one float32 above the threshold, 1 (or 0.5) above it,
   * labelimage.labelpeaks input dtype / memory layout: float32, float64 (the same values: exactly representable),
     uint8 / uint16 / int16 / int32 (own integer values and threshold), Fortran order, strided view,
-  * sparseframe.sparse_connected_pixels: default array names (threshold from the meta data or explicit) and the names
+  * sparseframe.sparse_connected_pixels: the classes of its arguments come from SparseCP.tla ("frame" cases carry
+    targ / rec / names; for the other cases the 26 combinations rotate with the case index): the threshold argument
+    None (documented default: the cut recorded in the frame's meta data) / exactly zero / negative / positive, as
+    Python int / float, numpy float32 / float64 / int64 scalars, -0.0, given by keyword or by position; the recorded
+    cut absent (no meta entry, an empty one, one without "threshold") / the same number / a number below / a number
+    above the requested one, with listed pixels on both sides of both numbers; default array names or the names
     lima_segmenter.clean passes (data_name="f32", label_name="cp") on a frame whose "intensity" array is a decoy with
-    the opposite classification and whose "intensity" meta threshold classifies nothing as above.
+    the opposite classification and whose "intensity" meta threshold classifies nothing as above; the frame built by
+    sparse_frame(...), from_data_mask, from_data_cut or read back through to_hdf_group / from_hdf_group.
+    The expectation is the specification's labelling under the threshold REQUESTED, never the recorded one.
+  * option arguments of cImageD11.connectedpixels: a case's `verbose` (ConnPix.tla, VERBS) is passed as it is (and set
+    as labelimage.verbose for labelpeaks); verbose / con8 are given by position, by keyword or left to their defaults,
+    "8-connected" is asked for as con8 = 1, 2, 8 or -1 (documented: 4-connected if con8 == 0).  The kernel's banner
+    goes to a swallowed stdout (swallow_stdout: file descriptor 1 -> /dev/null around the replay loops).
 
 Used in-process by props/c11.py and as a script under the ASan environment:
     python c11_replay.py <cases.jsonl> <out.json>
@@ -25,7 +36,18 @@ import numpy as np
 
 POISON = -7
 THRS = [0.0, 10.0, -3.5, 1000.0, 0.1, -1.0 / 3.0, 1e-3, 16777217.0]
-NVARIANT = 192                    # idx values after which the (threshold, value, dtype, name) rotation has seen all
+NVARIANT = 416                    # idx values after which the (threshold, value, dtype, option, name) rotation has seen all
+# sparseframe.sparse_connected_pixels: the numbers of SparseCP.tla's threshold classes (np.finfo(float32).min is what
+# sandbox/newpeaksearch3d.py passes)
+FR_THR = {"zero": [0.0], "neg": [-3.5, -1.0 / 3.0, float(np.finfo(np.float32).min)],
+          "pos": [10.0, 1000.0, 0.1, 1e-3, 16777217.0], "none": THRS}
+COMBOS = [("none", "same", nm) for nm in ("default", "named")] + \
+         [(ta, rc, nm) for ta in ("zero", "neg", "pos") for rc in ("absent", "same", "below", "above")
+          for nm in ("default", "named")]
+# how the frame is made, rotating with the case index (the HDF5 round trip costs milliseconds: one call in 64)
+BUILDERS = tuple("hdf" if i == 37 else ("sparse_frame", "from_data_mask", "from_data_cut")[i % 3] for i in range(64))
+NOTES = {}                        # things met and not judged (constructors that do not give the frame asked for)
+C8_TRUE = [1, 2, 8, -1]
 LI_KINDS = ["float32", "float64", "uint16", "int32", "uint8", "int16", "fortran", "strided"]
 INT_THR = [0, 10, 7, 1000]
 
@@ -41,6 +63,11 @@ def f32_above_below(thr):
 
 
 def _f32_above_below(thr):
+    with np.errstate(over="ignore"):
+        return _f32_above_below_(thr)
+
+
+def _f32_above_below_(thr):
     t32 = np.float32(thr)
     ninf, pinf = np.float32(-np.inf), np.float32(np.inf)
     lo = [t32, np.nextafter(t32, ninf), np.float32(t32 - np.float32(1.0))]
@@ -94,7 +121,26 @@ def routes_for(case):
     return case.get("routes") or ["dense", "labelimage", "sparse", "splat", "sparseframe"]
 
 
-def run_labelpeaks(labelimage, data, thr, shape, reuse=None):
+def call_dense(cImageD11, data, lab, thr, verbose, con8, idx):
+    """cImageD11.connectedpixels(data, labels, threshold, verbose=0, con8=1) with its option arguments written the
+    idx-th way; returns (count, how it was called)"""
+    c8 = C8_TRUE[(idx // 5) % len(C8_TRUE)] if con8 else 0
+    shape = (idx // 3) % 3
+    if shape == 0:
+        return cImageD11.connectedpixels(data, lab, thr, verbose, c8), "threshold, %d, %d" % (verbose, c8)
+    if shape == 1:
+        return (cImageD11.connectedpixels(data, lab, thr, con8=c8, verbose=verbose),
+                "threshold, con8=%d, verbose=%d" % (c8, verbose))
+    kw = {}
+    if verbose != 0:
+        kw["verbose"] = verbose
+    if c8 != 1:
+        kw["con8"] = c8
+    return (cImageD11.connectedpixels(data, lab, thr, **kw),
+            "threshold" + "".join(", %s=%d" % (k, kw[k]) for k in sorted(kw)))
+
+
+def run_labelpeaks(labelimage, data, thr, shape, reuse=None, verbose=0):
     """reuse: dict shape -> labelimage object used before (its blim then holds the labels of the previous image, as in
     a peak search over a series of frames); a fresh object gets a poisoned blim"""
     li = reuse.get(tuple(shape)) if reuse is not None else None
@@ -104,41 +150,204 @@ def run_labelpeaks(labelimage, data, thr, shape, reuse=None):
         li.blim[:] = POISON
         if reuse is not None:
             reuse[tuple(shape)] = li
+    li.verbose = verbose
     li.labelpeaks(data, thr)
     return li.blim, li.npk
 
 
-def run_sparseframe(sparseframe, ii, jj, shape, v, thr, mode, probs, decoy=None):
-    """sparseframe.sparse_connected_pixels; mode 0 threshold from meta, 1 explicit (default names);
-    2 / 3 the same with data_name="f32", label_name="cp" next to a decoy "intensity" array.  returns (labels, n)"""
-    name = "sparseframe.sparse_connected_pixels"
-    if mode < 2:
-        fr = sparseframe.sparse_frame(ii, jj, tuple(shape), itype=np.uint16, pixels={"intensity": v})
-        fr.meta["intensity"] = {"threshold": thr}
-        n = sparseframe.sparse_connected_pixels(fr, threshold=(thr if mode == 1 else None))
-        lname = "connectedpixels"
+@contextlib.contextmanager
+def swallow_stdout():
+    """file descriptor 1 -> /dev/null (the C kernels' printf when verbose != 0) while Python's sys.stdout keeps writing to
+    the real stdout (through a duplicate descriptor); both stdio layers are flushed on the way in and out, so nothing of
+    the banner reaches the real stdout later"""
+    import ctypes
+    libc = ctypes.CDLL(None)
+    sys.stdout.flush()
+    libc.fflush(None)
+    saved = os.dup(1)
+    null = os.open(os.devnull, os.O_WRONLY)
+    pyout, mine = sys.stdout, os.fdopen(os.dup(saved), "w")
+    try:
+        os.dup2(null, 1)
+        sys.stdout = mine
+        yield
+    finally:
+        sys.stdout = pyout
+        try:
+            mine.close()
+        except Exception:
+            pass
+        libc.fflush(None)
+        os.dup2(saved, 1)
+        os.close(saved)
+        os.close(null)
+
+
+def as_type(x, q):
+    """the number x as the q-th Python / numpy type a caller may hold it in (equal in value, or float32(x) which is what
+    the kernel makes of it anyway)"""
+    kinds = [float, np.float32, np.float64]
+    if float(x) == int(x) and abs(x) < 2 ** 31:
+        kinds += [int, np.int64]
+    return kinds[q % len(kinds)](x)
+
+
+ZEROS = [0, 0.0, -0.0, np.float32(0), np.float64(0), np.int64(0), np.float32(-0.0), np.int32(0)]
+
+
+def frame_numbers(targ, rec, idx):
+    """(stated threshold as a Python float, the object passed as `threshold`, the recorded cut or None): the classes are
+    SparseCP.tla's, the numbers are chosen here; checked in exact arithmetic"""
+    pool = FR_THR[targ]
+    thr = pool[idx % len(pool)]
+    t32, lo, hi = f32_above_below(thr)
+    q = idx // 3
+    if targ == "none":
+        arg = None
+    elif targ == "zero":
+        arg = ZEROS[q % len(ZEROS)]
     else:
-        name += "(data_name='f32', label_name='cp')"
-        if decoy is None:
-            t32, lo, hi = f32_above_below(thr)
-            decoy = np.where(v > t32, lo[0], hi[1]).astype(np.float32)
-        keep_d, keep_v = decoy.copy(), v.copy()
-        fr = sparseframe.sparse_frame(ii, jj, tuple(shape), itype=np.uint16, pixels={"intensity": decoy})
-        # the decoy's threshold: far above every value in the frame (nothing is a peak under it)
-        fr.meta["intensity"] = {"threshold": float(max(np.max(np.abs(v)), np.max(np.abs(decoy)), abs(thr))) * 2.0 + 4096.0}
-        fr.set_pixels("f32", v, {"threshold": thr})
-        n = sparseframe.sparse_connected_pixels(fr, threshold=(thr if mode == 3 else None), data_name="f32", label_name="cp")
-        lname = "cp"
-        if "connectedpixels" in fr.pixels:
-            probs.append("%s: wrote an array named 'connectedpixels'" % name)
-        if not (np.array_equal(fr.pixels["intensity"], keep_d) and np.array_equal(fr.pixels["f32"], keep_v)):
-            probs.append("%s: the data arrays of the frame were modified" % name)
+        arg = as_type(thr, q)
+    if arg is not None and not (float(np.float32(arg)) == float(t32) and (float(arg) == 0.0) == (targ == "zero")):
+        raise AssertionError("frame_numbers: argument %r is not the threshold %r" % (arg, thr))
+    if rec == "absent":
+        cut = None
+    elif rec == "same":
+        cut = as_type(thr, idx // 7)
+    elif rec == "below":
+        cut = float(lo[2]) if lo[2] < t32 else float(lo[1])
+    else:
+        cut = float(sorted(hi.tolist())[1])
+    if cut is not None:
+        c32 = float(np.float32(cut))
+        if not {"same": c32 == float(t32), "below": c32 < float(t32), "above": c32 > float(t32)}[rec]:
+            raise AssertionError("frame_numbers: recorded cut %r is not %s %r" % (cut, rec, thr))
+    return thr, arg, cut
+
+
+def build_frame(sparseframe, how, shape, listed, dimg, meta, ddecoy=None, dmeta=None):
+    """a sparse frame holding the pixels `listed` of the dense image dimg as "intensity" (meta: its meta data dict or None
+    = no entry), or - with a decoy - the decoy as "intensity" and dimg as "f32".  Returns (frame, how it was built)"""
+    ns, nf = shape
+    ii, jj = np.nonzero(listed)
+    ii, jj = ii.astype(np.uint16), jj.astype(np.uint16)
+    first = dimg if ddecoy is None else ddecoy
+    fmeta = meta if ddecoy is None else dmeta
+    fr = None
+    if how in ("from_data_mask", "hdf"):
+        fr = sparseframe.from_data_mask(listed.astype(np.int8), first, fmeta if fmeta is not None else {})
+    elif how == "from_data_cut":
+        # every listed pixel above the cut, every other pixel at or below it
+        cut = np.float32(min(float(first.min()), 0.0) - 2.0)
+        if np.isfinite(cut) and cut < first[listed].min():
+            d = np.where(listed, first, cut - np.float32(listed.sum() % 2)).astype(np.float32)
+            fr = sparseframe.from_data_cut(d, float(cut), fmeta if fmeta is not None else {})
+    if fr is None:
+        how = "sparse_frame"
+        fr = sparseframe.sparse_frame(ii, jj, (ns, nf), itype=np.uint16, pixels={"intensity": first[listed]})
+        if fmeta is not None:
+            fr.meta["intensity"] = fmeta
+    elif fmeta is None:
+        fr.meta.pop("intensity", None)
+    if ddecoy is not None:
+        if meta is None:
+            fr.set_pixels("f32", dimg[listed])
+        else:
+            fr.set_pixels("f32", dimg[listed], meta)
+    if how == "hdf":
+        import h5py
+        with h5py.File("c11_replay_%d.h5" % os.getpid(), "w", driver="core", backing_store=False) as h:
+            fr.to_hdf_group(h.create_group("f"))
+            fr = sparseframe.from_hdf_group(h["f"])
+    name = "intensity" if ddecoy is None else "f32"
+    want = dimg[listed]
+    ok = (fr.nnz == len(ii) and np.array_equal(fr.row, ii) and np.array_equal(fr.col, jj) and name in fr.pixels
+          and np.array_equal(np.asarray(fr.pixels[name], np.float32), want)
+          and ("threshold" in fr.meta.get(name, {})) == (meta is not None and "threshold" in meta))
+    if ok and meta is not None and "threshold" in meta:
+        ok = float(fr.meta[name]["threshold"]) == float(meta["threshold"])
+    if not ok:
+        # building / storing frames is C14's and X03's matter: fall back on the plain constructor, count it
+        NOTES["frame builder %s did not give the frame asked for (not judged here)" % how] = \
+            NOTES.get("frame builder %s did not give the frame asked for (not judged here)" % how, 0) + 1
+        return build_frame(sparseframe, "sparse_frame", shape, listed, dimg, meta, ddecoy, dmeta)
+    return fr, how
+
+
+def run_frame(sparseframe, tern, ns, nf, combo, idx, probs, data=None, thr=None, builders=BUILDERS):
+    """sparseframe.sparse_connected_pixels with the argument classes combo = (targ, rec, names) of SparseCP.tla.
+    data / thr given (large images): the image and the stated threshold are the caller's, otherwise they are chosen here.
+    returns (route name, labels or None, returned count)"""
+    targ, rec, names = combo
+    tern = np.asarray(tern).reshape(ns, nf)
+    listed = tern > 0
+    if data is None:
+        thr, arg, cut = frame_numbers(targ, rec, idx)
+        data = dense_data(tern.ravel().tolist(), ns, nf, thr, idx)
+    else:
+        t32, lo, hi = np.float32(thr), data[tern == 1], data[tern == 2]
+        arg = None if targ == "none" else ZEROS[(idx // 3) % len(ZEROS)] if thr == 0 else as_type(thr, idx // 3)
+        cut = None
+        if rec == "same":
+            cut = as_type(thr, idx // 7)
+        elif rec == "below" and len(lo):          # a number that some not-above pixels exceed
+            cut = float(np.sort(lo)[len(lo) // 2])
+            cut = cut if cut < float(t32) else float(np.nextafter(t32, np.float32(-np.inf)))
+        elif rec == "above" and len(hi):          # ... that some above pixels do not exceed
+            cut = float(np.sort(hi)[len(hi) // 2])
+        if cut is None:
+            rec = "absent"
+    t32 = np.float32(thr)
+    # meta data of the labelled array; "absent": no entry / an empty entry / an entry without "threshold"
+    if rec == "absent":
+        meta = [None, {}, {"cut": 12345.0}][(idx // 5) % 3]
+    else:
+        meta = {"threshold": cut}
+        if (idx // 5) % 2:
+            meta["title"] = "c11"
+    how = builders[(idx // 2) % len(builders)]
+    route = "sparseframe.sparse_connected_pixels(threshold=%r%s) [recorded cut %s, frame by %%s]" % (
+        arg, ", data_name='f32', label_name='cp'" if names == "named" else "",
+        "none" if rec == "absent" else "%r (%s)" % (cut, rec))
+    if names == "named":
+        _, plo, phi = f32_above_below(thr)
+        ddecoy = np.where(data > t32, plo[0], phi[1]).astype(np.float32)
+        big = float(max(np.max(np.abs(data[np.isfinite(data)]), initial=0.0), abs(thr) if np.isfinite(thr) else 0.0, 1.0))
+        dmeta = {"threshold": min(big * 2.0 + 4096.0, 3e38)}
+        fr, how = build_frame(sparseframe, how, (ns, nf), listed, data, meta, ddecoy, dmeta)
+        lname, dname = "cp", "f32"
+        keep = {"intensity": fr.pixels["intensity"].copy(), "f32": fr.pixels["f32"].copy()}
+    else:
+        fr, how = build_frame(sparseframe, how, (ns, nf), listed, data, meta)
+        lname, dname = "connectedpixels", "intensity"
+        keep = {"intensity": fr.pixels["intensity"].copy()}
+    route = route % how
+    shape = (idx // 11) % 3                   # how the arguments are written
+    if names == "named":
+        if shape == 0:
+            n = sparseframe.sparse_connected_pixels(fr, "cp", "f32", arg)
+        elif shape == 1:
+            n = sparseframe.sparse_connected_pixels(fr, threshold=arg, data_name="f32", label_name="cp")
+        else:
+            n = sparseframe.sparse_connected_pixels(fr, label_name="cp", data_name="f32", **({} if arg is None else {"threshold": arg}))
+    else:
+        if shape == 0:
+            n = sparseframe.sparse_connected_pixels(fr, "connectedpixels", "intensity", arg)
+        elif shape == 1:
+            n = sparseframe.sparse_connected_pixels(fr, threshold=arg)
+        else:
+            n = sparseframe.sparse_connected_pixels(fr, **({} if arg is None else {"threshold": arg}))
+    if names == "named" and "connectedpixels" in fr.pixels:
+        probs.append("%s: wrote an array named 'connectedpixels'" % route)
+    for k, a in keep.items():
+        if k not in fr.pixels or not np.array_equal(fr.pixels[k], a):
+            probs.append("%s: the data array %r of the frame was modified" % (route, k))
     if lname not in fr.pixels:
-        probs.append("%s: no array named %r in the frame afterwards" % (name, lname))
-        return name, None, n
+        probs.append("%s: no array named %r in the frame afterwards" % (route, lname))
+        return route, None, n
     if fr.meta.get(lname, {}).get("nlabel") != n:
-        probs.append("%s: nlabel meta differs from returned count" % name)
-    return name, fr.pixels[lname], n
+        probs.append("%s: nlabel meta differs from returned count" % route)
+    return route, fr.pixels[lname], n
 
 
 def run_splat(cImageD11, v, ii, jj, thr, ns, nf, zpi=0, zpj=0):
@@ -162,25 +371,26 @@ def run_case(case, mods, idx=0):
     probs = []
     routes = routes_for(case)
 
-    def cmp(name, got, exp, n):
+    def cmp(name, got, exp, n, say_thr=True):
         if int(n) != n_exp:
             probs.append("%s: returned count %d, specification %d" % (name, int(n), n_exp))
         if got is None:
             return
         if got.shape != exp.shape or not np.array_equal(got, exp):
-            probs.append("%s: labels %s differ from specification %s (threshold %r)" % (
-                name, got.ravel().tolist(), exp.ravel().tolist(), thr))
+            probs.append("%s: labels %s differ from specification %s%s" % (
+                name, got.ravel().tolist(), exp.ravel().tolist(), " (threshold %r)" % thr if say_thr else ""))
 
+    verbose = int(case.get("verbose", 0))
     if "dense" in routes:
         lab = np.full((ns, nf), POISON, np.int32)
-        n = cImageD11.connectedpixels(data, lab, thr, 0, con8)
-        cmp("connectedpixels(con8=%d)" % con8, lab, exp_dense, n)
+        n, how = call_dense(cImageD11, data, lab, thr, verbose, con8, idx)
+        cmp("connectedpixels(%s)" % how, lab, exp_dense, n)
     if "labelimage" in routes and con8 == 1:
         kind = LI_KINDS[(idx // len(THRS)) % len(LI_KINDS)]
         arr, t = li_input(kind, data, case["tern"], ns, nf, idx, thr)
-        blim, npk = run_labelpeaks(labelimage, arr, t, (ns, nf))
-        cmp("labelimage.labelpeaks(%s input)" % kind, blim, exp_dense, npk)
-    if con8 == 1 and ("sparse" in routes or "splat" in routes or "sparseframe" in routes):
+        blim, npk = run_labelpeaks(labelimage, arr, t, (ns, nf), verbose=verbose)
+        cmp("labelimage.labelpeaks(%s input%s)" % (kind, ", verbose = %d" % verbose if verbose else ""), blim, exp_dense, npk)
+    if con8 == 1 and ("sparse" in routes or "splat" in routes or "sparseframe" in routes or "frame" in routes):
         listed = tern > 0
         ii, jj = np.nonzero(listed)
         ii = ii.astype(np.uint16)
@@ -199,8 +409,13 @@ def run_case(case, mods, idx=0):
             lab, n = run_splat(cImageD11, v, ii, jj, thr, ns, nf, zpi, zpj)
             cmp("sparse_connectedpixels_splat(Z for %dx%d)" % (ns + zpi, nf + zpj), lab, exp_sp, n)
         if "sparseframe" in routes and nnz > 0:
-            name, got, n = run_sparseframe(sparseframe, ii, jj, (ns, nf), v, thr, (idx // len(THRS)) % 4, probs)
-            cmp(name, got, exp_sp, n)
+            # a case of the kernels' enumeration: the wrapper's 26 argument classes rotate with the case index
+            name, got, n = run_frame(sparseframe, case["tern"], ns, nf, COMBOS[(idx // len(THRS)) % len(COMBOS)], idx, probs)
+            cmp(name, got, exp_sp, n, False)
+        if "frame" in routes and nnz > 0:
+            # a case of SparseCP.tla's wrapper enumeration: its own argument classes
+            name, got, n = run_frame(sparseframe, case["tern"], ns, nf, (case["targ"], case["rec"], case["names"]), idx, probs)
+            cmp(name, got, exp_sp, n, False)
     return probs
 
 
@@ -213,7 +428,7 @@ def main():
     cases_path, out_path = sys.argv[1], sys.argv[2]
     mods = load_mods()
     out = {"n": 0, "problems": []}
-    with open(cases_path) as f:
+    with open(cases_path) as f, swallow_stdout():
         for idx, line in enumerate(f):
             case = json.loads(line)
             out["n"] += 1
@@ -229,6 +444,7 @@ def main():
             if idx % 2000 == 0:
                 with open(out_path, "w") as g:
                     json.dump(dict(out, partial=True, last=idx), g)
+    out["notes"] = NOTES
     with open(out_path, "w") as g:
         json.dump(out, g)
 
